@@ -20,6 +20,52 @@ pub struct Case {
     pub parts: Vec<Vec<f64>>,
     pub pres: Vec<Vec<bool>>,
     pub zero: Vec<bool>,
+    /// 0: an ordinary program from `raw`; otherwise the selector of a wide-magnitude composition
+    /// template (scale the input to |c t| = 10^e, apply one function, multiply with the input)
+    #[serde(default)]
+    pub wide: u8,
+    #[serde(default)]
+    pub wu: f64,
+}
+
+/// functions of the wide-magnitude templates (index into prog::UNARY)
+const WIDE_FUNS: [usize; 15] = [0, 1, 2, 6, 7, 8, 9, 15, 19, 20, 22, 10, 11, 18, 5];
+
+/// Wide-magnitude composition template: n1 = c * t (four spellings), n2 = f(n1), n3 = n2 * t, with
+/// |c t| = 10^e drawn from the function's wide range for the type (c01::wide_range): the chain and
+/// product rules meet derivative coefficients many orders of magnitude away from 1.
+fn wide_program(case: &Case, t: f64, is32: bool, d: usize) -> Program {
+    let sel = case.wide as usize;
+    let fi = WIDE_FUNS[sel % WIDE_FUNS.len()];
+    let neg = (sel / 16) % 2 == 1;
+    let l = crate::c01::wide_limit(is32, d);
+    let (lo, hi, mirror) = crate::c01::wide_range(fi, l, neg);
+    let e = lo + (hi - lo) * case.wu.clamp(0.0, 1.0);
+    let mut target = 10f64.powf(e);
+    if neg && mirror {
+        target = -target;
+    }
+    let rnd = |v: f64| if is32 { v as f32 as f64 } else { v };
+    let c = rnd(target / t);
+    let mut ops = vec![Op::Input(0)];
+    let scale = match (sel / 32) % 4 {
+        0 => Op::BinS(Bin::Mul, false, 0, c),
+        1 => Op::BinS(Bin::Mul, true, 0, c),
+        2 => Op::BinS(Bin::Div, false, 0, rnd(1.0 / c)),
+        _ => {
+            ops.push(Op::Const(c));
+            Op::Bin(Bin::Mul, Form::Owned, 0, 1)
+        }
+    };
+    ops.push(scale);
+    let n1 = ops.len() - 1;
+    ops.push(Op::Un(UNARY[fi].name().to_string(), n1));
+    let n2 = ops.len() - 1;
+    if sel >= 128 {
+        ops.push(Op::Bin(Bin::Mul, Form::Owned, n2, 0));
+    }
+    let last = ops.len() - 1;
+    Program { n_inputs: 1, ops, outs: vec![last] }
 }
 
 pub fn raw_op() -> impl Strategy<Value = RawOp> {
@@ -178,7 +224,27 @@ impl<'a> TyVisitor for V<'a> {
         let case = self.case;
         let lay = T::layout(dims);
         let xr: Vec<f64> = case.x.iter().map(|x| round_to::<T::F>(*x)).collect();
-        let (prog, repaired) = resolve(&xr, &case.raw, 1);
+        let is32 = <T::F as Flt>::IS32;
+        let (prog, repaired, xr) = if case.wide != 0 {
+            let t = if xr[0].abs() < 0.1 { 1.5 } else { xr[0] };
+            let d = lay.alg().depth();
+            let d = if T::levels() > 1 { 2 * d + 1 } else { d };
+            (wide_program(case, t, is32, d), 0, vec![t])
+        } else {
+            let (p, r) = resolve(&xr, &case.raw, 1);
+            (p, r, xr)
+        };
+        struct Reset;
+        impl Drop for Reset {
+            fn drop(&mut self) {
+                FLOOR_OVERRIDE.with(|c| c.set(None));
+            }
+        }
+        let _reset = Reset;
+        if case.wide != 0 {
+            FLOOR_OVERRIDE.with(|c| c.set(Some(crate::c01::WIDE_FLOOR)));
+            self.st.class("wide-magnitude composition template");
+        }
         let inputs: Vec<_> = xr
             .iter()
             .enumerate()
@@ -199,8 +265,9 @@ pub fn case_strategy(max_nodes: usize) -> BoxedStrategy<Case> {
         proptest::collection::vec(parts_pool(), 3),
         proptest::collection::vec(proptest::collection::vec(proptest::bool::weighted(0.75), 8), 3),
         proptest::collection::vec(proptest::bool::weighted(0.10), 8),
+        (prop_oneof![9 => Just(0u8), 1 => 1u8..=255], 0.0f64..1.0),
     )
-        .prop_map(|((ty, dims), x, raw, parts, pres, zero)| Case { ty, dims, x, raw, parts, pres, zero })
+        .prop_map(|((ty, dims), x, raw, parts, pres, zero, (wide, wu))| Case { ty, dims, x, raw, parts, pres, zero, wide, wu })
         .boxed()
 }
 
@@ -216,6 +283,7 @@ pub fn malformed(case: &Case) -> bool {
         || case.zero.is_empty()
         || case.x.iter().any(|x| !x.is_finite() || x.abs() > 1e3)
         || case.raw.iter().any(|r| !r.k.is_finite() || r.k.abs() > 1.0)
+        || !case.wu.is_finite()
 }
 
 impl Property for C03 {
@@ -228,7 +296,7 @@ impl Property for C03 {
         if malformed(case) {
             return Verdict::Trivial("malformed case");
         }
-        let dims = [case.dims.0 as usize, case.dims.1 as usize];
+        let dims = [case.dims.0 as usize % 7, case.dims.1 as usize % 7];
         dispatch(case.ty, &dims, V { case, st })
     }
     fn cases(tier: Tier) -> u64 {
@@ -238,7 +306,7 @@ impl Property for C03 {
         }
     }
     fn rule() -> String {
-        "generated: SSA expression DAGs of 1..12 (thorough: 32) nodes over 1..3 inputs from 52 opcodes (24 unary functions, sin_cos, powi/powf/powd/log/atan2/mul_add, + - * / in owned, borrowed-rhs and compound-assignment form, scalar ops, Sum/Product, From<F>/FromPrimitive constants) with sharing; a deterministic resolver repairs domain violations (margins, |value| <= 1e6) so every generated program is valid; input parts arbitrary (not unit seeds), optional parts absent 25%. Oracle: the same program evaluated by an independent interpreter in the reference algebra with running first-order rounding bound e; EVERY node (not only the output) is compared part by part with 32*u*e. Non-trivial: >= 2 non-linear nodes, a node with two non-constant operands, an input with independent higher-order parts, not ill-conditioned; distinct fingerprints.".into()
+        "generated: SSA expression DAGs of 1..12 (thorough: 32) nodes over 1..3 inputs from 52 opcodes (24 unary functions, sin_cos, powi/powf/powd/log/atan2/mul_add, + - * / in owned, borrowed-rhs and compound-assignment form, scalar ops, Sum/Product, From<F>/FromPrimitive constants) with sharing; a deterministic resolver repairs domain violations (margins, |value| <= 1e6) so every generated program is valid; input parts arbitrary (not unit seeds), optional parts absent 25%. One case in ten is instead a wide-magnitude composition template f(c*t)[*t] with |c t| = 10^e over the function's whole representable range for the type (as in C01). Oracle: the same program evaluated by an independent interpreter in the reference algebra with running first-order rounding bound e; EVERY node (not only the output) is compared part by part with 32*u*e. Non-trivial: >= 2 non-linear nodes, a node with two non-constant operands, an input with independent higher-order parts, not ill-conditioned; distinct fingerprints.".into()
     }
     fn assumptions() -> Vec<String> {
         vec![
